@@ -142,12 +142,13 @@ CURATED = {
     "mesh_overflow_warning": [2, 5],
     "consecutive_skipping": [True, False],
     "restarts": [0],
+    "gp_cov_fun": [2, 3],  # squared exponential, Matern 5/2 (1 = rational quadratic is the default)
 }
 # options whose non-default value switches to unfinished code or breaks construction: never overridden
 FROZEN = {"periodic_vars", "fun_values", "f_vals", "output_fcn", "stobads", "acq_hedge", "gp_mean_fun", "init_fun", "search_method",
           "poll_mesh_multiplier", "init_mesh_size_integer", "max_poll_grid_number", "search_size_locked", "noise_shaping",
           "specify_target_noise", "noise_size", "search_acq_fcn", "poll_acq_fcn", "n_search_iter", "search_mesh_expand",
-          "improvement_quantile", "force_poll_mesh", "gp_cov_fun", "gp_cov_prior", "fit_lik", "uncertain_incumbent",
+          "improvement_quantile", "force_poll_mesh", "gp_cov_prior", "fit_lik", "uncertain_incumbent",
           "alternative_incumbent", "use_slice_sampler", "use_effective_radius", "warp_func", "hessian_update", "noise_nudge",
           "remove_points_after_tries", "gp_mean_percentile", "gp_mean_range_fun", "gp_rescale_poll", "sloppy_improvement",
           "tol_improvement", "forcing_exponent", "search_scale_success", "search_scale_incremental", "search_scale_failure",
@@ -186,6 +187,8 @@ def histories(draw):
         if draw(st.booleans()):
             # the verbosity is the one option whose effect lives in process-wide state (the "BADS" logger)
             ov["display"] = draw(st.sampled_from(CURATED["display"]))
+        if draw(st.sampled_from([False, False, False, True])):
+            ov["gp_cov_fun"] = draw(st.sampled_from(CURATED["gp_cov_fun"]))
         if draw(st.sampled_from([False, False, True])):
             ov["random_seed"] = draw(st.sampled_from(CURATED["random_seed"]))  # (0 is a seed like any other)
         unknown = None
@@ -359,6 +362,14 @@ def run_history(case):
                 labs.append("run-exception:" + info["type"])
             ran.add(i)
             ovr = case["insts"][i]["overrides"]
+            if res_obj is not None and src_of.get(i) is None:
+                # the covariance function the surrogate really uses is the one the option names
+                want_cov = {1: "RationalQuadraticARD", 2: "SquaredExponential", 3: "Matern"}[ovr.get("gp_cov_fun", 1)]
+                hist_gp = b.iteration_history.get("gp")
+                gps = [g for g in (list(np.ravel(hist_gp)) if hist_gp is not None else []) if g is not None and hasattr(g, "covariance")]
+                got_cov = type(gps[-1].covariance).__name__ if gps else None
+                if got_cov is not None and got_cov != want_cov:
+                    v.append(viol("a:user-value-not-in-effect", f"gp_cov_fun={ovr.get('gp_cov_fun', 1)!r}: the run's GP uses {got_cov}, expected {want_cov}", site="gp_cov_fun"))
             if res_obj is not None and "random_seed" in ovr and src_of.get(i) is None and not same(res_obj["random_seed"], ovr["random_seed"]):
                 v.append(viol("a:user-value-not-in-effect", f"random_seed={ovr['random_seed']!r} supplied, the run reports {res_obj['random_seed']!r}", site="random_seed"))
             # (a) the display option of *this* instance is what governs its run, whatever was constructed in between
